@@ -48,6 +48,51 @@ def probe_receipts():
     return bool(bad), "; ".join(bad[:2]) or "probe: each written rewrite has exactly one receipt with its text and position"
 
 
+def probe_positions():
+    """real tokenize on texts with every character some routines treat as a line break, multi-line strings and zones:
+    each token's (line, column) must be where an independent scan of the text (only "\\n" ends a line) finds its lexeme"""
+    from octave_mcp.core.lexer import tokenize
+
+    seps = ["\r", "\x0b", "\x0c", "\x1c", "\x1d", "\x1e", "\x85", "\u2028", "\u2029"]
+    texts = ['===D===\nS::"a%sb%s"\nF::A->B\nK::v\n===END===\n' % (sp, sp) for sp in seps]
+    texts += ['===D===\nT::"""l1\nl2\nl3"""\nF::A->B\n===END===\n', '===D===\n// c\u2028d\nF::A->B\n===END===\n', "===D===\nZ::\n```\na\u2028b\n\n```\nF::A->B\n===END===\n", '===D===\nL::["x\x0cy",\n  "p\x85q"]\nF::A->B\n===END===\n']
+    bad = []
+    for t in texts:
+        toks, _ = tokenize(t)
+        for tk in toks:
+            if tk.type.name in ("IDENTIFIER", "FLOW", "ASSIGN") and isinstance(tk.line, int):
+                lines = t.split("\n")
+                if not (1 <= tk.line <= len(lines)):
+                    bad.append(f"{t!r}: token {tk.type.name} {tk.value!r} reported on line {tk.line} of {len(lines)}")
+                    continue
+                lexeme = tk.normalized_from or (tk.value if isinstance(tk.value, str) else None)
+                if tk.type.name == "ASSIGN":
+                    lexeme = "::"
+                if lexeme and lines[tk.line - 1][tk.column - 1: tk.column - 1 + len(lexeme)] != lexeme:
+                    bad.append(f"{t!r}: token {tk.type.name} {lexeme!r} reported at ({tk.line},{tk.column}) where the input has {lines[tk.line - 1][tk.column - 1: tk.column - 1 + len(lexeme)]!r}")
+    return bool(bad), "; ".join(bad[:2]) or "probe: every token is where a scan for \\n-terminated lines finds it"
+
+
+def ob_position_update(ctx: Ctx) -> Outcome:
+    """C07.P8: the position bookkeeping block of tokenize's table branch (located structurally) under its contract;
+    when the block reads variables the contract does not describe, or has another shape, a probe decides"""
+    from contracts import receipts as RC
+    from verif.common import shape_verdict
+    from verif.pyvc.adapter import contract_outcome
+
+    try:
+        step = RC._pos_block()
+    except extract.ExtractionError as e:
+        return shape_verdict("pyvc", [str(e)], probe_positions, 7, {"runner": "props.C07:probe_positions", "args": {}})
+    extra = sorted(set(step.params) - set(RC.POSITION_UPDATE.params))
+    if extra:
+        return shape_verdict("pyvc", [f"the position bookkeeping now depends on {extra}, which the contract does not describe"], probe_positions, 7, {"runner": "props.C07:probe_positions", "args": {}})
+    out = contract_outcome(RC.POSITION_UPDATE, "contracts.receipts:POSITION_UPDATE")
+    if out.status == "undecided":
+        return shape_verdict("pyvc", [out.detail[:200]], probe_positions, 7, {"runner": "props.C07:probe_positions", "args": {}})
+    return out
+
+
 def ob_receipt_coupling(ctx: Ctx) -> Outcome:
     """C07.P1 (AST shape): in tokenize's table branch the token is Token(token_type, value, line, column,
     normalized_from, raw_lexeme) and `if normalized_from: repairs.append({type: normalization, original:
@@ -137,6 +182,7 @@ def obligations(ctx: Ctx):
     P = PROPERTY
     obs = [
         Ob(f"{P}.P1", "R", "lexer: normalization receipt iff token.normalized_from, with the token's own position", [LEXER + ":tokenize"], ob_receipt_coupling),
+        Ob(f"{P}.P8", "P", "tokenize position bookkeeping: a token moves the line by the number of \\n it contains (nothing else is a line break), the column by its length / to after its last \\n", [LEXER + ":tokenize"], ob_position_update),
         Ob(f"{P}.R1", "R", "normalized_from iff the lexeme is a documented ASCII alias (or triple quote)", [LEXER + ":tokenize"], ob_alias_lexemes),
         Ob(f"{P}.R2.ident", "R", "canonical bare values re-lex without alias tokens (identifier class)", LX.FUNCS_EMIT + LX.FUNCS_LEX, lambda ctx: LX.ob_ident(ctx, oid=f"{P}.R2", which="ident")),
         Ob(f"{P}.R2.expr", "R", "canonical bare expressions re-lex to Unicode operator tokens only", LX.FUNCS_EMIT + LX.FUNCS_LEX, lambda ctx: LX.ob_expr(ctx, oid=f"{P}.R2")),
